@@ -7,6 +7,7 @@ mod lexer;
 mod rexec;
 mod sexec;
 mod sink;
+mod texec;
 mod util;
 mod wexec;
 
@@ -24,6 +25,7 @@ fn main() {
         "sexec" => sexec::main_sexec(rest),
         "cexec" => cexec::main_cexec(rest),
         "fexec" => fexec::main_fexec(rest),
+        "texec" => texec::main_texec(rest),
         "lex" => {
             let b = std::fs::read(&rest[0]).expect("read");
             let o = lexer::LexOpts { allow_trailing: true, ..Default::default() };
